@@ -1,5 +1,5 @@
 """C15 -- results are reproducible, mode-independent and independent of earlier solver use (structural clauses)."""
-from ..rules import dispatch, model
+from ..rules import dispatch, model, optimize
 
 EXPLANATION = (
     "Static analysis: for the 4 registries the interpreted branch REG[i] and the compiled branch function_from_address(TYPE_REG, addrs[i]) use the same registry, index, address array (traced from get_function_addresses through the 4 unpacking sites into solve_one's parameters) and argument list, and every member has the signature's arity; every argument carrying an engine array is bound to the parameter named after that array at all 225 resolved call edges; no module-level mutable object is written by a function other than a registry's append-only register_*; no global statement, nondeterminism source or environment dependence in library code; mutable default arguments are only read/copied; solver constructors do not write the problem; init() re-creates everything it derives. Not run-to-run equality itself. Also: Solver.__init__ calls problem.init() on every path with a problem; no memoising decorator or annotated module-level cache; a difference whose left operand is read from an unsigned engine array is never tested against a negative value (int64 when compiled, wraps when interpreted); the wake-up table is accumulated over zeros."
@@ -12,4 +12,5 @@ def check(ctx, prog):
     dispatch.rule_global_state(ctx, prog)
     model.rule_init_coherence(ctx, prog)
     dispatch.rule_reinit(ctx, prog)
+    optimize.rule_domain_source(ctx, prog)
     dispatch.rule_mode_arith(ctx, prog)
